@@ -888,7 +888,8 @@ type fpDialCfg struct {
 	Suppress  []uint64
 	Randomize bool
 	IDsBefore bool // call TransportParameterIDs() before the dial
-	Emit      bool // print this dial as a correspondence case (FDial) for the model replay
+	Emit      bool // print this dial as a correspondence case for the model replay
+	EmitDial  bool // group A only: also as an FDial case (every fresh built-in dial that is emitted is an FBuiltin case)
 }
 
 // fpSpecExtIDs: the extension ids the spec's extension objects stand for, in order. uTLS is the
@@ -957,7 +958,7 @@ func fpDialOnce(rep *fpReporter, sp *quic.QUICSpec, c fpDialCfg, dialNo int) *fp
 	pre := fpSnapshot(ext)
 	specTerm := ""
 	var specExts []uint64
-	if c.Emit {
+	if c.EmitDial {
 		specTerm = uspecdialSpecTerm(ext.TransportParameters)
 		specExts = fpSpecExtIDs(sp.ClientHelloSpec)
 	}
@@ -1025,7 +1026,7 @@ func fpDialOnce(rep *fpReporter, sp *quic.QUICSpec, c fpDialCfg, dialNo int) *fp
 	if after := sp.TransportParameterIDs(); !fpEqU64(after, canon) {
 		rep.fail(kw+"ids-canonical", fmt.Sprintf("TransportParameterIDs() after the dial = %v, canonicalised wire = %v", after, canon), detail())
 	}
-	if c.Emit { // the dial as a correspondence case: spec as written -> what the wire shows (raw GREASE values)
+	if c.EmitDial { // the dial as a correspondence case: spec as written -> what the wire shows (raw GREASE values)
 		var kt, wkt, wet []string
 		for _, k := range specKeys {
 			kt = append(kt, u.Pair(u.Z(int64(k.Group)), u.Hex(k.Data)))
@@ -1085,11 +1086,20 @@ func runSimFingerprint(w *bufio.Writer, seed uint64, n int, args []string) {
 				rep.fail(k+"capture", err.Error(), name)
 				break
 			}
-			c := fpDialCfg{Name: name, IDsBefore: r.Chance(1, 3), Emit: i%4 == 0}
+			c := fpDialCfg{Name: name, IDsBefore: r.Chance(1, 3), Emit: i%4 == 0, EmitDial: i%8 == 0}
 			o := fpDialOnce(rep, sp, c, 0)
 			nCases++
 			if o == nil {
 				continue
+			}
+			if c.Emit { // the fresh built-in dial against the generated table of its QUICID (clause (e))
+				q := 0
+				for j, nm := range parrotNames {
+					if nm == name {
+						q = j
+					}
+				}
+				fmt.Fprintf(w, "CASE 1 %s\n", u.App("FBuiltin", u.Z(int64(q)), uspecdialWireTerm(o.Wire)))
 			}
 			ids[o.HexID]++
 			if firstOf[o.HexID] == nil {
@@ -1185,7 +1195,7 @@ func runSimFingerprint(w *bufio.Writer, seed uint64, n int, args []string) {
 				}
 			}
 			pre := fpSnapshot(ext)
-			c := fpDialCfg{Name: name, Randomize: r.Chance(2, 3), IDsBefore: r.Bool(), Emit: true}
+			c := fpDialCfg{Name: name, Randomize: r.Chance(2, 3), IDsBefore: r.Bool(), Emit: true, EmitDial: true}
 			// suppression subset: ids of the list (never initial_source_connection_id: a
 			// server is not needed here, but keep the flight well-formed), 27, unknown ids
 			for _, p := range pre {
@@ -1277,7 +1287,7 @@ func fpDistribution(w *bufio.Writer, r *u.Rng, rep *fpReporter, n int) {
 		}
 		fpSortSpec(fpSpecExt(sp))
 		pre := fpSnapshot(fpSpecExt(sp))
-		c := fpDialCfg{Name: name, Randomize: true, Emit: i%3 == 0}
+		c := fpDialCfg{Name: name, Randomize: true, Emit: i%3 == 0, EmitDial: i%3 == 0}
 		for _, p := range pre {
 			kept := false
 			for _, id := range keep {
